@@ -57,7 +57,10 @@ def law_unit(name, self, args):
     if name == "reciprocal":
         return spint.upow(unit_of(args[0]), -1)
     if name == "power":
-        return spint.upow(unit_of(args[0]), raw(args[1]))
+        k = raw(args[1])
+        if isinstance(k, snp.ndarray) and k.ndim == 0:
+            k = k.elem(())  # a 0-d exponent array is a number
+        return spint.upow(unit_of(args[0]), k)
     raise core.Undecided("no unit law for numpy function %r (outside the catalogue)" % name)
 
 
@@ -331,6 +334,10 @@ def build_operands(spec, dims):
         if kind.startswith("const:"):
             v = float(kind[6:])
             ops.append(int(v) if v == int(v) and "." not in kind[6:] else v)
+            continue
+        if kind.startswith("nd0:"):
+            v = float(kind[4:])
+            ops.append(snp.array(int(v) if v == int(v) else v))
             continue
         u = None
         if tag is not None:
